@@ -2,6 +2,8 @@
 (DESIGN.md section 8, shape B: product graph with the canonical LR(1)
 automaton, every reachable pair replayed through the real driver)."""
 import collections
+import functools
+import itertools
 
 from parglare.closure import LR_0, LR_1
 from parglare.tables import ACCEPT, REDUCE, SHIFT, create_table
@@ -18,13 +20,58 @@ KNOWN = Known(PROP)
 FLOOR = {"quick": 1000, "thorough": 5000}
 CHUNK = 60
 
+TWIN_NTS = ("S", "X", "A", "B", "C", "N")
+TWIN_TS = ("a", "b", "c", "d", "e", "n", "q", "r")
+
+
+@functools.lru_cache(maxsize=None)
+def twin_grammars():
+    """Template family around the classical LR(1)-but-not-LALR(1) core
+    (X: a A d | a B e | b B d | b A e with A: c, B: c): states with the same
+    kernel that must stay apart, in several contexts, with nullable tails
+    whose lookahead arrives only by propagation.  Every combination of the
+    listed components is enumerated; the mergeable core is the control."""
+    ctxs = [(("X",),), (("X",), ("q", "X", "r")), (("X", "r"), ("q", "X")),
+            (("X", "X"),)]
+    cores = [(("a", "A", "d"), ("a", "B", "e"), ("b", "B", "d"), ("b", "A", "e")),
+             (("a", "A", "d"), ("a", "B", "e"), ("b", "A", "d"), ("b", "B", "e"))]
+    thirds = [(), (("a", "C"), ("b", "C")), (("a", "C"),)]
+    abs_ = [(("c",), ("c",)), (("c", "N"), ("c", "N")), (("c", "N"), ("c",))]
+    cs = [("c", "N"), ("c", "N", "N"), ("c",)]
+    ns = [(("n",), ()), ((), ("n",)), (("n", "N"), ())]
+    out, seen = [], set()
+    for ctx, core, third, ab, c, n, rev in itertools.product(
+            ctxs, cores, thirds, abs_, cs, ns, (False, True)):
+        xs = list(core) + list(third)
+        if rev:
+            xs.reverse()
+        prods = [("S", r) for r in ctx] + [("X", r) for r in xs]
+        prods += [("A", ab[0]), ("B", ab[1])]
+        if third:
+            prods.append(("C", c))
+        if any("N" in r for _, r in prods):
+            prods += [("N", r) for r in n]
+        key = tuple(prods)
+        if key not in seen:
+            seen.add(key)
+            out.append(key)
+    return out
+
+
 SPACES = {
     "k3": dict(nts=("S", "A"), ts=("a", "b"), r=2, k=3),
     "k4": dict(nts=("S", "A"), ts=("a", "b"), r=2, k=4),
     "k5": dict(nts=("S", "A"), ts=("a", "b"), r=2, k=5, kmin=5),
     "r3": dict(nts=("S", "A"), ts=("a", "b"), r=3, k=3),
     "n3": dict(nts=("S", "A", "B"), ts=("a", "b"), r=2, k=4),
+    "twin": dict(family="twin", nts=TWIN_NTS, ts=TWIN_TS),
 }
+
+
+def space_grammars(sp):
+    if sp.get("family") == "twin":
+        return twin_grammars()
+    return spaces.grammars(**sp)
 
 
 def plan(tier, seed):
@@ -34,16 +81,19 @@ def plan(tier, seed):
                 ("k5", (seed, 60), "main"),
                 # three nonterminals: FOLLOW/lookahead fixpoints that need
                 # more than two passes only exist from here on
-                ("n3", (seed, 40), "main")]
+                ("n3", (seed, 40), "main"),
+                # same-kernel states that must not be merged (refused LALR
+                # merges), lookaheads that arrive only by propagation
+                ("twin", None, "main")]
     return [("k4", None, "main"), ("k4", None, "layout"),
             ("k5", None, "main"), ("r3", None, "main"), ("n3", None, "main"),
-            ("r3", None, "layout")]
+            ("r3", None, "layout"), ("twin", None, "main")]
 
 
 def units(tier, seed):
     out = []
     for space, win, start in plan(tier, seed):
-        n = len(spaces.grammars(**SPACES[space]))
+        n = len(space_grammars(SPACES[space]))
         idxs = list(range(n)) if win is None else list(
             spaces.window(n, win[0], win[1]))
         for i in range(0, len(idxs), CHUNK):
@@ -58,9 +108,9 @@ def worker_init():
 LAYOUT_NAMES = {"S": "LAYOUT", "A": "LA", "B": "LB"}
 
 
-def render(prods, nts, start):
+def render(prods, nts, start, lexmap="M0"):
     if start == "main":
-        return spaces.render_grammar(prods, nts, "M0"), {n: n for n in nts}
+        return spaces.render_grammar(prods, nts, lexmap), {n: n for n in nts}
     ren = LAYOUT_NAMES
     p2 = [(ren[l], tuple(ren.get(x, x) for x in r)) for l, r in prods]
     body = spaces.render_grammar(p2, tuple(ren[n] for n in nts), "M0")
@@ -308,7 +358,8 @@ def bind_driver(judge, stats, mon, g, table, text, gk, R, ren, kind, seen,
 def run_unit(u):
     sp = SPACES[u["space"]]
     nts = sp["nts"]
-    gs = spaces.grammars(**sp)
+    gs = space_grammars(sp)
+    lexmap = {t: ("s", t) for t in sp["ts"]}
     mon = Monitor()
     judge = Judge(PROP, KNOWN)
     stats = collections.Counter()
@@ -317,7 +368,7 @@ def run_unit(u):
         prods = gs[gi]
         gk = spaces.gkey(prods, nts)
         ordered = spaces.ordered_prods(prods, nts)
-        text, ren = render(prods, nts, u["start"])
+        text, ren = render(prods, nts, u["start"], lexmap)
         R = LR1(ordered, nts[0], sp["ts"])
         earley = Earley(ordered, nts[0])
         stats["grammars"] += 1
